@@ -8,10 +8,10 @@ import os, re
 from vlib.engine import Prop, Failure
 from props import msagen as G
 
-MODELLED = ["afa", "a2m", "clustal", "clustallike", "psiblast", "phylip", "phylips"]                         # formats whose reader exists in the Lean model (text + digital, declared format)
+MODELLED = ["afa", "a2m", "clustal", "clustallike", "psiblast", "phylip", "phylips", "selex", "stockholm", "pfam"]                         # formats whose reader exists in the Lean model (text + digital, declared format)
 MODELLED_ABC = ["text", "amino", "dna", "rna"]
 ALL_FORMATS = G.FORMATS
-UNMODELLED = [f for f in ALL_FORMATS if f not in MODELLED] + ["auto(format autodetection)", "guess(alphabet autodetection)"]
+UNMODELLED = [f for f in ALL_FORMATS if f not in MODELLED] + ["auto(format autodetection: esl_msafile_GuessFileFormat, msafile_check_selex, esl_msafile_phylip_CheckFileFormat)", "guess(alphabet autodetection: esl_msafile_*_GuessAlphabet, esl_abc_GuessAlphabet)"]
 
 STABLE_ANCHOR_KEY = "C01:selex-stream:stable-anchor-uaf"
 LEAK_KEY = None
@@ -41,28 +41,36 @@ class C01(Prop):
         "clustalConfigs_valid", "clustal_total", "clustal_no_fault", "clustal_ok_wellformed",
         "psiblastConfigs_valid", "psiblast_total", "psiblast_no_fault", "psiblast_ok_wellformed",
         "phylipConfigs_valid", "phylip_total", "phylip_total_bytes", "phylip_no_fault", "phylip_eformat_has_message", "phylip_ok_wellformed",
-        "phylip_read_all_total")] + ["EaselModel.Msafile.phylipRead_good",
+        "phylip_read_all_total",
+        "selexConfigs_valid", "selex_total", "selex_no_fault", "selex_eformat_has_message", "selex_ok_wellformed", "selex_read_all_total",
+        "stoConfigs_valid", "stockholm_total", "stockholm_total_rest", "stockholm_no_fault", "stockholm_eformat_has_message", "stockholm_ok_wellformed")] + [
+        "EaselModel.Msafile.stockholmRead_good", "EaselModel.Msafile.stockholmRead_nofault",
+        "EaselModel.Msafile.phylipRead_good", "EaselModel.Msafile.selexRead_good",
         "EaselModel.Msafile.afaRead_good", "EaselModel.Msafile.a2mRead_good", "EaselModel.Msafile.clustalRead_good",
         "EaselModel.Msafile.psiblastRead_good", "EaselModel.Msafile.runLines_inv"]
     claimed = True
     technique = ("Lean 4 proof (totality, fault-freedom and well-formedness of an executable line-by-line model of the alignment readers, bounds-checked "
                  "auxiliary arrays) + exact differential correspondence of the model with the ASan/UBSan/LSan-built readers + property monitors on all ten formats")
-    level_text = ("PARTIAL. Theorems (no size bound, every byte string, text mode and digital mode with amino/DNA/RNA alphabets whose tables are regenerated from "
-                  "the C code each run): for the MODELLED readers (see evidence: modelled_formats) one esl_msafile_Read returns ok / eof / eformat-with-message, the "
-                  "bounds-checked model never faults and never raises an internal exception, an alignment returned with ok is well formed (>=1 sequence, every row of "
-                  "length alen, text rows NUL-free, digital rows sentinel-delimited with codes < Kp, default weights) and the input is fully consumed; the abstract "
-                  "LF/CRLF line reader partitions the input. The hand model is tied to the working tree by an exact differential run (full MSA dump compared). "
-                  "ALL ten formats + autodetection + alphabet guessing are additionally exercised on the real ASan/UBSan/LSan-built readers with property monitors "
-                  "(status set, message on eformat, esl_msa_Validate + independent field-length/sentinel/weight checks, per-operation leak check, "
-                  "no ESL_EXCEPTION, identical result from memory / file / slurped / mmap / small-page stream sources).")
-    level_note = ("Unmodelled formats (evidence: unmodelled_formats), format autodetection and alphabet guessing are covered by the monitors only - support, not proof. "
-                  "Trusted: Lean kernel + propext/Classical.choice/Quot.sound; fidelity of the hand model is checked (not proved) by the differential run; ESL_BUFFER's "
-                  "refinement to the abstract line reader is property C05; allocation never fails; leaks are outside the model (LeakSanitizer per operation). "
-                  "Known finding C01:selex-stream:stable-anchor-uaf (shared with C05): SELEX / PHYLIP-autodetect inputs on stream and file-mode sources are kept below one page.")
+    level_text = ("PARTIAL (autodetection and alphabet guessing are not in the model). Theorems (no size bound, every byte string, text mode and digital mode with "
+                  "amino/DNA/RNA alphabets whose tables are regenerated from the C code each run) for ALL TEN declared formats - aligned FASTA, A2M (incl. padding), "
+                  "Clustal, Clustal-like, PSI-BLAST, PHYLIP interleaved and sequential (incl. header parsing and pushed-back lines), SELEX, Stockholm and Pfam (block "
+                  "invariant over sqlen/sslen/salen/pplen/ogc_len/ogr_len/bi/npb): one esl_msafile_Read returns ok / eof / eformat-with-message, the bounds-checked "
+                  "line-by-line model never faults (every auxiliary array carries the allocation size the C code computes) and never raises an internal exception, and an "
+                  "alignment returned with ok is well formed (>=1 sequence, every row and every per-column / per-residue annotation incl. unparsed #=GC/#=GR of length alen, "
+                  "text rows NUL-free, digital rows sentinel-delimited with codes < Kp, weights all default or all set); the abstract LF/CRLF line reader partitions the "
+                  "input. The hand models are tied to the working tree by an exact differential run (status sequence + full MSA dump compared; numeric payload of "
+                  "Stockholm weights/cut-offs masked). All formats + autodetection + alphabet guessing are additionally exercised on the real ASan/UBSan/LSan-built "
+                  "readers with property monitors (status set, message on eformat, esl_msa_Validate + independent field-length/sentinel/weight checks on every field, "
+                  "per-operation leak check, no ESL_EXCEPTION, identical result from memory / file / slurped / mmap / small-page stream sources).")
+    level_note = ("Format autodetection (esl_msafile_GuessFileFormat, msafile_check_selex, PHYLIP CheckFileFormat) and alphabet guessing are covered by the monitors "
+                  "only - support, not proof. Trusted: Lean kernel + propext/Classical.choice/Quot.sound; fidelity of the hand models is checked (not proved) by the "
+                  "differential run; ESL_BUFFER's refinement to the abstract line reader is property C05 (SELEX line pointers are abstracted to line contents); keyhash "
+                  "lookups are abstracted to first-index-by-name (C19); allocation never fails; leaks are outside the model (LeakSanitizer per operation). "
+                  "Known finding C01:selex-stream:stable-anchor-uaf (shared with C05): SELEX / autodetect inputs on stream and file-mode sources are kept below one page.")
     diverge_is_violation = False
     quick_budget_s = 75
     thorough_budget_s = 900
-    trusted_base = ["hand model of esl_msafile_afa.c, esl_msafile_a2m.c (incl. a2m_padding_*), esl_msafile_clustal.c, esl_msafile_psiblast.c, esl_msafile_phylip.c (interleaved + sequential, esl_mem_strtoi32 header) readers (+ easel.c esl_strmapcat, esl_alphabet.c esl_abc_dsqcat, esl_mem.c esl_memtok/esl_memspn, esl_msa.c setters) "
+    trusted_base = ["hand model of esl_msafile_afa.c, esl_msafile_a2m.c (incl. a2m_padding_*), esl_msafile_clustal.c, esl_msafile_psiblast.c, esl_msafile_phylip.c (interleaved + sequential, esl_mem_strtoi32 header), esl_msafile_selex.c (block reader, lpos/rpos, annotation lines; line pointers abstracted), esl_msafile_stockholm.c (ESL_STOCKHOLM_PARSEDATA, the six line parsers, block invariant over sqlen/sslen/salen/pplen/ogc_len/ogr_len/bi/npb; keyhash lookups abstracted to first-index-by-name; numeric payload of weights and cut-offs not modelled, only accept/reject and set/unset) readers (+ easel.c esl_strmapcat, esl_alphabet.c esl_abc_dsqcat, esl_mem.c esl_memtok/esl_memspn, esl_msa.c setters) "
                     "tied by exact differential run (h_msafile.c, ASan+UBSan+LSan build of the working tree)",
                     "abstract line reader (split at LF, one CR stripped before LF): ESL_BUFFER's refinement to it is property C05, assumed here and re-checked "
                     "by running every input through memory, file, slurped-file, mmap and small-page stream sources and demanding identical results",
@@ -208,8 +216,14 @@ class C01(Prop):
             b = self.canonical(model_out[i]) if i < len(model_out) else "<missing>"
             if b == "unmodelled": continue
             a = a.replace(" leak", "")
-            if a != b: return (i, a[:3000], b[:3000])
+            if a != b and self._mask(a) != self._mask(b): return (i, self._mask(a)[:3000], self._mask(b)[:3000])
         return None
+
+    @staticmethod
+    def _mask(line):
+        """the numeric VALUE of Stockholm weights / cut-offs is not modelled (which are set is): mask the payload on both sides"""
+        line = re.sub(r";w=[0-9a-f,]+", lambda m: ";w=" + re.sub(r"[0-9a-f]{16}", "v", m.group(0)[3:]), line)
+        return re.sub(r";cut=[0-9a-f~,]+", lambda m: ";cut=" + re.sub(r"[0-9a-f]{8}", "v", m.group(0)[5:]), line)
 
     def nontrivial(self, case, out):
         return any(" rd=ok " in l or " rd=eformat" in l for l in out)
